@@ -31,14 +31,14 @@ NSTEPS = 5
 
 
 def bounds(tier, seed):
-    return dict(release=["discrete", "continuous"], column=["none", "int", "time"], ibmvar=[False, True], diffusion=[0.0, 5.0], subgrid=[None, [2, 9, 1, 7]], advection=["EF", "RK4"],
+    return dict(release=["discrete", "continuous"], column=["none", "int", "time"], ibmvar=[False, True], diffusion=[0.0, 2.5, 4], subgrid=[None, [2, 9, 1, 7]], advection=["EF", "RK4"],
                 grid=["explicit", "omitted-plain", "omitted-wildcard"], optional=["omitted", "empty"], reference=[False, True], dt=["int", "list", "iso"])
 
 
 def cases(tier, seed):
     out = []
     k = seed
-    for rel, col, ibm, diff, grid in itertools.product(["discrete", "continuous"], ["none", "int", "time"], [False, True], [0.0, 5.0], ["explicit", "omitted-plain", "omitted-wildcard"]):
+    for rel, col, ibm, diff, grid in itertools.product(["discrete", "continuous"], ["none", "int", "time"], [False, True], [0.0, 2.5, 4], ["explicit", "omitted-plain", "omitted-wildcard"]):
         others = list(itertools.product([None, [2, 9, 1, 7]], ["EF", "RK4"], ["omitted", "empty"], [False, True], ["int", "list", "iso"]))
         if tier == "quick":
             k += 1
